@@ -70,5 +70,96 @@ def real_cases(ctx):
 
 
 PARTS.append(Part("real", prop_real, strategy=real_cases, quick=16, thorough=240, shrink_budget=5))
+
+# --- a scheduler opens a token that k live jobs of a dead scheduler hold (real threads) ----------
+
+OBSERVER_SRC = r'''
+import sys, os, time, logging, warnings
+warnings.filterwarnings("ignore")
+logging.basicConfig(level=logging.ERROR)
+from pathlib import Path
+from experimaestro.tokens import CounterToken
+d = Path(sys.argv[1])
+t = CounterToken("tok", d, int(sys.argv[2]), force=False)
+print("OPEN", t.available, flush=True)
+deadline = time.time() + float(sys.argv[3])
+while time.time() < deadline and (not (d / "go").exists() or list(d.glob("*.token"))):
+    time.sleep(0.05)
+with t.lock, t.ipc_lock:
+    t._update()
+print("LEFT", t.available, sorted(p.name for p in d.glob("*.token")), flush=True)
+os._exit(0)
+'''
+
+
+def holders_enumerate(ctx):
+    for k in (2, 3, 4):
+        for rep in range(ctx.pick(3, 12)):
+            yield {"holders": k, "rep": rep, "pid_files": True}
+    for rep in range(ctx.pick(1, 4)):
+        yield {"holders": 3, "rep": rep, "pid_files": False}
+
+
+def prop_holders(ctx, case):
+    import json
+    import os
+    import shutil
+    import subprocess
+    import sys
+    import time
+    from vlib import real
+
+    d = ctx.scratch / "holders"
+    shutil.rmtree(d, ignore_errors=True)
+    tokdir = d / "tok.counter"
+    tokdir.mkdir(parents=True)
+    k = case["holders"]
+    (tokdir / "token.info").write_text(str(k))
+    children = []
+    try:
+        for i in range(k):
+            jd = d / f"job{i}"
+            jd.mkdir()
+            c = subprocess.Popen(["sleep", "3600"], start_new_session=True)
+            children.append(c)
+            if case["pid_files"]:
+                (jd / "job.pid").write_text(json.dumps({"type": "local", "pid": c.pid}))
+            (tokdir / f"holder{i}.token").write_text(f"1\n{jd / 'job'}\n")
+        env = dict(os.environ, PYTHONPATH=real.pythonpath())
+        obs = subprocess.Popen([sys.executable, "-W", "ignore", "-c", OBSERVER_SRC, str(tokdir), str(k), "12"], env=env, stdout=subprocess.PIPE, stderr=subprocess.PIPE, text=True)
+        line = obs.stdout.readline()
+        time.sleep(0.3)
+        for c in children:  # the jobs end (their scheduler is dead: nobody else will release)
+            c.kill()
+            c.wait()
+        for i in range(k):
+            f = d / f"job{i}" / "job.pid"
+            if f.exists():
+                f.unlink()
+        (tokdir / "go").touch()
+        try:
+            out, err = obs.communicate(timeout=30)
+        except subprocess.TimeoutExpired:
+            obs.kill()
+            out, err = obs.communicate()
+        left = next((l for l in out.splitlines() if l.startswith("LEFT")), "LEFT ? ?")
+        parts = left.split(" ", 2)
+        files = parts[2] if len(parts) > 2 else "?"
+        if files != "[]":
+            cause = "no-handler" if "No handler of type" in err else ("other:" + (err.strip().splitlines()[-1][:60] if err.strip() else "silent"))
+            ctx.violation(
+                f"token-file-left:reclaim-thread-died:{cause}",
+                f"a scheduler opened a token held by {k} live jobs of a dead scheduler; after those jobs ended {files} remain (available {parts[1]} of {k}); stderr of the scheduler: {err[-400:]}",
+            )
+        ctx.record(True, ["holders", f"holders:{k}"] + (["holders:no-pid-file"] if not case["pid_files"] else []), sample={"case": case, "observer": [line.strip(), left]})
+    finally:
+        for c in children:
+            if c.poll() is None:
+                c.kill()
+                c.wait()
+        shutil.rmtree(d, ignore_errors=True)
+
+
+PARTS.append(Part("live-holders", prop_holders, enumerate=holders_enumerate))
 MIN_CLASSES["quick"]["real"] = 12
 TIMEOUT = {"quick": 900, "thorough": 5400}
